@@ -97,6 +97,9 @@ def special_cases():
     one("nop\n. = 2000 + (e - s) * 2\ns: .blkb 3\n.even\ne: .word s\n")          # `. =` as base; an .even at an unknown address between: no
     one(".link e - s + 3000\ns: .ascii /abc/\n.byte 1\ne: .word e\n.repeat (e - s) { nop }\n")   # base and a count
     one(".link e\ne: nop\n")                                                # the base does not cancel
+    one(".repeat 200000. { nop }\n")                                          # beyond MAX_REPETITIONS: value-out-of-bounds
+    one(".byte 1\n.align 200000.\n.word 1\n")                                 # .align count is a uint16 now
+    one(".byte 1\n.align 40000.\n.byte 2\n")
     one(".blkb l\nl: nop\n")                                         # count needs a later label: outside the subset
     one(".link l\nl: nop\n")                                         # base through a label: outside the subset
     one("push r0\npop r1\ncall @#100\nret\nreturn\nccc\nscc\n")
